@@ -1630,6 +1630,29 @@ CORPUS += [
             {'parent': _TX, 'attr': 'raw_postings', 'kind': 'val', 'raw': 'raw_postings_with_comments', 'view': True,
              'op': 'pop', 'i': 2, 'donors': []}]),
 ]
+# optional children written right against a neighbour (no blank where the grammar needs none): removing the child must
+# neither take a token of the neighbour with it nor leave the two neighbours glued together
+def _RM(path, attr):
+    return {'parent': path, 'attr': attr, 'kind': 'opt', 'op': 'set_opt', 'donors': []}
+
+
+_D0 = [['raw_directives_with_comments', 0]]
+_P0 = _D0 + [['raw_postings_with_comments', 0]]
+CORPUS += [
+    ('2000-01-01 open Assets:A USD "STRICT";note\n', [_RM(_D0, 'raw_inline_comment')]),
+    ('2000-01-01 open Assets:A USD"STRICT" ;note\n', [_RM(_D0, 'raw_booking')]),
+    ('2000-01-01 *\n  Assets:A 1 USD{2 EUR}@3 EUR;note\n', [_RM(_P0, 'raw_inline_comment')]),
+    ('2000-01-01 *\n  Assets:A 1 USD{2 EUR}@3 EUR;note\n', [_RM(_P0, 'raw_price')]),
+    ('2000-01-01 *\n  Assets:A 1 USD{2 EUR}@3 EUR;note\n', [_RM(_P0, 'raw_cost')]),
+    ('2000-01-01 *\n  Assets:A 1 USD{2 EUR}@3 EUR;note\n', [_RM(_P0, 'raw_cost'), _RM(_P0, 'raw_price'), _RM(_P0, 'raw_inline_comment')]),
+    ('2000-01-01 *\n  !Assets:Foo 10 USD\n', [_RM(_P0, 'raw_flag')]),
+    ('2000-01-01 *\n  ! Assets:Foo 10 USD\n', [_RM(_P0, 'raw_flag')]),
+    ('2000-01-01 *\n    Assets:Cash 10CAD\n', [_RM(_P0, 'raw_number')]),
+    ('2000-01-01 *\n    Assets:Cash 10CAD\n', [_RM(_P0, 'raw_currency')]),
+    ('2000-01-01 *\n    Assets:Cash 10 CAD@@5 USD\n', [_RM(_P0, 'raw_currency'), _RM(_P0, 'raw_number')]),
+    ('2000-01-01 * "p""n"#t\n  Assets:A\n', [_RM(_D0, 'raw_payee')]),
+    ('2000-01-01 balance Assets:A 1~0.1 USD\n', [_RM(_D0, 'raw_tolerance')]),
+]
 # views over MIXED raw lists (other-kind elements / standalone comments between the addressed elements): slice deletes
 # and assignments, remove / discard / index / count / in with a value that also occurs as the other kind
 _T2 = [['raw_directives_with_comments', 1]]
